@@ -6,6 +6,8 @@ import (
 	"math"
 
 	"github.com/kstenerud/go-concise-encoding/cbe"
+	"github.com/kstenerud/go-concise-encoding/ce/events"
+	"github.com/kstenerud/go-concise-encoding/rules"
 	"github.com/kstenerud/go-concise-encoding/configuration"
 	"github.com/kstenerud/go-concise-encoding/internal/verifrt"
 )
@@ -109,4 +111,131 @@ func Verif_C22_Float() {
 	enc.OnFloat(math.Float64frombits(bits))
 	verifrt.Reach("done")
 	verifrt.Assert(len(w.buf) == specFloatSize(bits), "binary float uses the narrowest exact width")
+}
+
+// ---- strings and typed arrays: short forms whenever the count allows ------
+
+// specArraySize: one final chunk of n <= 15 elements -> 1-byte header for
+// strings, 2-byte (7f, type|n) header for typed kinds; otherwise type byte
+// [+ plane byte] + ULEB128((n<<1)|more) per chunk.
+func ulebLen(v uint64) int {
+	n := 1
+	for v >= 0x80 {
+		v >>= 7
+		n++
+	}
+	return n
+}
+
+func Verif_C22_StringLength() {
+	n := []int{0, 1, 14, 15, 16, 17, 64}[verifrt.Choice("len", 7)]
+	text := make([]byte, n)
+	for i := range text {
+		text[i] = 'a'
+	}
+	form := verifrt.Choice("form", 3)
+	e, w := newEnc()
+	switch form {
+	case 0:
+		e.OnStringlikeArray(events.ArrayTypeString, string(text))
+	case 1:
+		e.OnArray(events.ArrayTypeString, uint64(n), text)
+	case 2:
+		e.OnArrayBegin(events.ArrayTypeString)
+		e.OnArrayChunk(uint64(n), false)
+		if n > 0 {
+			e.OnArrayData(text)
+		}
+	}
+	want := 1 + n
+	if n > 15 {
+		want = 1 + ulebLen(uint64(n)<<1) + n
+	}
+	verifrt.Reach("done")
+	verifrt.Assert(len(w.buf) == want, "string uses the short header whenever its length allows")
+}
+
+func Verif_C22_TypedArrayLength() {
+	kinds := []events.ArrayType{events.ArrayTypeUint16, events.ArrayTypeInt32, events.ArrayTypeFloat64, events.ArrayTypeUID, events.ArrayTypeInt8}
+	widths := []int{2, 4, 8, 16, 1}
+	ki := verifrt.Choice("kind", len(kinds))
+	n := []int{0, 1, 15, 16}[verifrt.Choice("elems", 4)]
+	data := make([]byte, n*widths[ki])
+	form := verifrt.Choice("form", 2)
+	e, w := newEnc()
+	if form == 0 {
+		e.OnArray(kinds[ki], uint64(n), data)
+	} else {
+		e.OnArrayBegin(kinds[ki])
+		e.OnArrayChunk(uint64(n), false)
+		if n > 0 {
+			e.OnArrayData(data)
+		}
+	}
+	want := 2 + len(data)
+	if n > 15 {
+		want = 2 + ulebLen(uint64(n)<<1) + len(data)
+	}
+	verifrt.Reach("done")
+	verifrt.Assert(len(w.buf) == want, "typed array uses the short header whenever its element count allows")
+}
+
+// ---- idempotence: decode an encoder-produced document and encode it again --
+
+type teeEnc struct{ *cbe.Encoder }
+
+func reencode(doc []byte) ([]byte, error) {
+	cfg := configuration.New()
+	w := &recW{}
+	e := cbe.NewEncoder(cfg)
+	e.PrepareToEncode(w)
+	err := cbe.NewDecoder(cfg).DecodeDocument(doc, rules.NewRules(e, cfg))
+	return w.buf, err
+}
+
+func Verif_C22_Idempotent() {
+	which := verifrt.Choice("which", 8)
+	v := verifrt.U64("v")
+	cfg := configuration.New()
+	w := &recW{}
+	e := cbe.NewEncoder(cfg)
+	e.PrepareToEncode(w)
+	var r events.DataEventReceiver = rules.NewRules(e, cfg)
+	r.OnBeginDocument()
+	r.OnVersion(0)
+	switch which {
+	case 0:
+		r.OnPositiveInt(v)
+	case 1:
+		r.OnNegativeInt(v | 1)
+	case 2:
+		r.OnFloat(math.Float64frombits(v))
+	case 3:
+		r.OnList()
+		r.OnInt(int64(v))
+		r.OnStringlikeArray(events.ArrayTypeString, "abc")
+		r.OnEndContainer()
+	case 4:
+		r.OnArrayBegin(events.ArrayTypeUint16)
+		r.OnArrayChunk(1, true)
+		r.OnArrayData([]byte{byte(v), byte(v >> 8)})
+		r.OnArrayChunk(1, false)
+		r.OnArrayData([]byte{3, 4})
+	case 5:
+		r.OnMap()
+		r.OnUID(make([]byte, 16))
+		r.OnNan(v&1 == 0)
+		r.OnEndContainer()
+	case 6:
+		r.OnArray(events.ArrayTypeUint8, 16, make([]byte, 16))
+	case 7:
+		r.OnMedia("a/b", []byte{byte(v), 2})
+	}
+	r.OnEndDocument()
+	first := w.buf
+	second, err := reencode(first)
+	verifrt.Reach("done")
+	verifrt.Assert(err == nil, "encoder output decodes")
+	verifrt.Assert(len(first) == len(second), "re-encoding keeps the length")
+	verifrt.Assert(verifrt.BytesEq(first, second), "decode then encode reproduces the document byte for byte")
 }
